@@ -15,3 +15,13 @@ package auparse
 //@ ensures[C04] (result1 == nil) == (result0 != nil)
 //@ ensures[C04] result0 != nil ==> fresh(result0) && result0.RecordType == typ && result0.data == nil && isNil(result0.error)
 //@ ensures[C05] result0 != nil ==> -1 <= result0.offset && result0.offset <= len(result0.RawData)
+
+// ---------------------------------------------------------------------------
+// C20 (and C04): the name/number tables.
+//
+//@ table[C20,C04] inverse auparse.auditMessageTypeToName auparse.auditMessageNameToType
+//@ table[C20,C04] names-canonical auparse.auditMessageTypeToName
+//@ table[C20] maps-back auparse.AuditErrnoToName auparse.AuditErrnoToNum
+//@ table[C20,C07] injective auparse.AuditArchNames
+//@ table[C20,C07] injective-nested auparse.AuditSyscalls
+//@ consts[C10,C20] auparse AUDIT_EOE=msgtype.AUDIT_EOE AUDIT_PROCTITLE=msgtype.AUDIT_PROCTITLE AUDIT_LAST_DAEMON=msgtype.AUDIT_LAST_DAEMON AUDIT_ANOM_LOGIN_FAILURES=msgtype.AUDIT_ANOM_LOGIN_FAILURES AUDIT_SYSCALL=msgtype.AUDIT_SYSCALL AUDIT_PATH=msgtype.AUDIT_PATH AUDIT_SOCKADDR=msgtype.AUDIT_SOCKADDR AUDIT_CWD=msgtype.AUDIT_CWD AUDIT_EXECVE=msgtype.AUDIT_EXECVE AUDIT_ADD_RULE=msgtype.AUDIT_ADD_RULE AUDIT_DEL_RULE=msgtype.AUDIT_DEL_RULE AUDIT_LIST_RULES=msgtype.AUDIT_LIST_RULES
